@@ -109,30 +109,35 @@ def secp256k1Suite : Suite (Fq secp256k1.n) (WE secp256k1) :=
 
 /-! ### Edwards suites -/
 
+/-- dalek's `sqrt_ratio_i(u, w)` for `u = y² − 1`, `w = d y² + 1`: a candidate `x` with
+    `w x² = u`, if there is one -/
+def ed25519Root (y : Nat) : Option Nat :=
+  let p := p25
+  let u := subMod (y * y) 1 p
+  let w := (d25 * y * y + 1) % p
+  let x := u * powMod w 3 p * powMod (u * powMod w 7 p) ((p - 5) / 8) p % p
+  let wxx := w * x * x % p
+  if wxx == u then some x
+  else if wxx == negMod u p then some (x * sqrtM1 % p)
+  else none
+
+/-- choose the root with the requested sign bit (no check when `x = 0`), then the checks of
+    frost-ed25519's `Group::deserialize`: identity, torsion -/
+def ed25519Finish (sign x y : Nat) : Except (Err (Fq ed25519.n)) (EE ed25519) :=
+  let x := if (x &&& 1) != sign then negMod x p25 else x
+  let P : EPoint := ⟨x, y⟩
+  if P == ⟨0, 1⟩ then .error .GroupInvalidIdentityElement
+  else if ed25519.mul L25 P != ⟨0, 1⟩ then .error .GroupInvalidNonPrimeOrderElement
+  else .ok ⟨P⟩
+
 /-- decoder with the error variants of frost-ed25519's `Group::deserialize` -/
 def ed25519DecE (b : Bytes) : Except (Err (Fq ed25519.n)) (EE ed25519) :=
   if b.length != 32 then .error .GroupMalformedElement
   else
-    let p := p25
     let v := leToNat b
-    let sign := v >>> 255
-    let y := (v &&& ((1 <<< 255) - 1)) % p
-    let u := subMod (y * y) 1 p
-    let w := (d25 * y * y + 1) % p
-    let x := u * powMod w 3 p * powMod (u * powMod w 7 p) ((p - 5) / 8) p % p
-    let wxx := w * x * x % p
-    let xo : Option Nat :=
-      if wxx == u then some x
-      else if wxx == negMod u p then some (x * sqrtM1 % p)
-      else none
-    match xo with
+    match ed25519Root ((v &&& ((1 <<< 255) - 1)) % p25) with
     | none => .error .GroupMalformedElement
-    | some x =>
-      let x := if (x &&& 1) != sign then negMod x p else x
-      let P : EPoint := ⟨x, y⟩
-      if P == ⟨0, 1⟩ then .error .GroupInvalidIdentityElement
-      else if ed25519.mul L25 P != ⟨0, 1⟩ then .error .GroupInvalidNonPrimeOrderElement
-      else .ok ⟨P⟩
+    | some x => ed25519Finish (v >>> 255) x ((v &&& ((1 <<< 255) - 1)) % p25)
 
 def ed25519Base : Base (Fq ed25519.n) (EE ed25519) :=
   let ctx := strBytes "FROST-ED25519-SHA512-v1"
